@@ -5,6 +5,8 @@ package main
 // the answer's JSON fields.
 
 import (
+	"io/ioutil"
+	"github.com/sirupsen/logrus"
 	"strings"
 	"bytes"
 	"encoding/hex"
@@ -232,7 +234,15 @@ func (c *ctx) joinBatch(n int, concurrent bool) error {
 		jc.faults = M{"dev": devFault[jc.devEUI], "nskek": kekFault[jc.reqSender], "aslabel": labelFault[jc.devEUI], "askek": jc.asKEK != nil && kekFault[jc.asLabel]}
 	}
 	storage := fmt.Errorf("storage failure")
+	// the handler's logger is configuration: none (the default), or one at any level - what is answered must not depend on it
+	var logger *logrus.Logger
+	if lv := c.rnd.Intn(4); lv > 0 {
+		logger = logrus.New()
+		logger.SetOutput(ioutil.Discard)
+		logger.SetLevel([]logrus.Level{logrus.ErrorLevel, logrus.InfoLevel, logrus.DebugLevel, logrus.TraceLevel}[lv])
+	}
 	h, err := joinserver.NewHandler(joinserver.HandlerConfig{
+		Logger: logger,
 		GetDeviceKeysByDevEUIFunc: func(e lorawan.EUI64) (joinserver.DeviceKeys, error) {
 			if devFault[e] {
 				return joinserver.DeviceKeys{}, storage
@@ -282,7 +292,10 @@ func (c *ctx) joinBatch(n int, concurrent bool) error {
 		}
 		rec := httptest.NewRecorder()
 		req := httptest.NewRequest("POST", "/", bytes.NewReader(cases[i].body))
-		h.ServeHTTP(rec, req)
+		if res, _ := observeFast(func() error { h.ServeHTTP(rec, req); return nil }); res != "" {
+			results[i] = result{0, []byte("handler did not return: " + res)} // no answer at all (net/http would drop the connection)
+			return
+		}
 		results[i] = result{rec.Code, rec.Body.Bytes()}
 	}
 	extra := map[int][]result{} // concurrent mode: further, DIFFERENT answers to the same request (every answer is judged)
@@ -299,8 +312,13 @@ func (c *ctx) joinBatch(n int, concurrent bool) error {
 					defer wg.Done()
 					<-start
 					rec := httptest.NewRecorder()
-					h.ServeHTTP(rec, httptest.NewRequest("POST", "/", bytes.NewReader(cases[i].body)))
-					res := result{rec.Code, rec.Body.Bytes()}
+					res := result{0, []byte("handler did not return")}
+					if pr, _ := observeFast(func() error {
+						h.ServeHTTP(rec, httptest.NewRequest("POST", "/", bytes.NewReader(cases[i].body)))
+						return nil
+					}); pr == "" {
+						res = result{rec.Code, rec.Body.Bytes()}
+					}
 					mu.Lock()
 					defer mu.Unlock()
 					if results[i].body == nil {
